@@ -3,7 +3,8 @@
 From Coq Require Import ZArith QArith List Bool.
 From RV Require Import Base.Wire Base.Text Lang.StmtAst Lang.Transl Lang.StmtSem Lang.StmtGuard
   Lang.SemFacts Lang.StmtDemo.
-From RV Require Import Proofs.SkeletonP Proofs.SimTopP Proofs.SimDemoP.
+From RV Require Import Lang.StmtSimple.
+From RV Require Import Proofs.SkeletonP Proofs.SimTopP Proofs.SimDemoP Proofs.TranslAcceptP Proofs.SimAcceptP.
 Import ListNotations.
 Open Scope Z_scope.
 
@@ -49,6 +50,30 @@ Theorem C01_stmt_preserve_partial :
       cprog_exec sem augsem (info_of p) F' n (match p_main p with Some _ => true | None => false end) c = Some tr.
 Proof. exact stmt_preserve_partial. Qed.
 Print Assumptions C01_stmt_preserve_partial.
+
+(* Inside the guard the only reason for rejection is a misplaced `break` ([breaks_ok]: every `break`
+   is inside a for/while loop and not directly at the level of the main loop): the parser model
+   accepts every other guarded program ... *)
+Theorem C01_stmt_guard_accepts :
+  forall p, guard_ok p = true -> breaks_ok p = true -> exists c, transl p = Some c.
+Proof. exact guard_accepts. Qed.
+Print Assumptions C01_stmt_guard_accepts.
+
+(* ... so that inside the guard "reject-or-preserve" is "accept and preserve". *)
+Theorem C01_stmt_accept_and_preserve_partial :
+  forall sem augsem p,
+    guard_ok p = true -> breaks_ok p = true -> sem_facts sem augsem p ->
+    exists c, transl p = Some c /\
+      forall fuel n tr, pprog_exec sem augsem fuel n p = Some tr ->
+      exists F, forall F', (F <= F')%nat ->
+        cprog_exec sem augsem (info_of p) F' n (match p_main p with Some _ => true | None => false end) c = Some tr.
+Proof. exact accept_and_preserve. Qed.
+Print Assumptions C01_stmt_accept_and_preserve_partial.
+
+Example C01_stmt_accept_nonvacuous :
+  guard_ok demo = true /\ breaks_ok demo = true /\ sem_facts demo_sem demo_aug demo.
+Proof. exact demo_breaks_ok. Qed.
+Print Assumptions C01_stmt_accept_nonvacuous.
 
 (* The hypotheses are satisfiable by a non-trivial program (constant and run-time globals, a for
    loop, if/else with an augmented assignment, 4 passes of the main loop, 8 trace events), and
